@@ -6,6 +6,7 @@ import (
 	"sort"
 	"strconv"
 	"strings"
+	"time"
 
 	"github.com/bilibili/gengine/builder"
 	"github.com/bilibili/gengine/context"
@@ -150,6 +151,8 @@ func targets() []target {
 	}
 	// promoted fields of embedded structs, one and two levels deep
 	ts = append(ts, fieldTarget("H.EI", tI64), fieldTarget("H.EU", tU16), fieldTarget("H.EF", tF64), fieldTarget("H.In.DX", reflect.TypeOf(int32(0))), fieldTarget("H.Pn.DX", reflect.TypeOf(int32(0))))
+	// fields of named types over int64 / float64 (time.Duration, type Level int64, type Ratio float64)
+	ts = append(ts, fieldTarget("H.Lv", reflect.TypeOf(gen.Level(0))), fieldTarget("H.Dur", reflect.TypeOf(time.Duration(0))), fieldTarget("H.Rt", reflect.TypeOf(gen.Ratio(0))))
 	ts = append(ts,
 		ptrTarget("PI8", tI8), ptrTarget("PI64", tI64), ptrTarget("PU16", tU16), ptrTarget("PU64", tU64), ptrTarget("PF32", tF32), ptrTarget("PF64", tF64),
 		// containers, literal keys
@@ -539,11 +542,11 @@ func RunC03Random(k *fw.Case) {
 		default: // string / bool stores
 			ru.key, ru.desc = "store/string-bool", "string and bool stores"
 			ru.body = []gen.Stmt{
-				&gen.Assign{Target: []string{"H.S", "H.In.S", "H.Pn.S", "PStr"}[r.Intn(4)], Op: "=", E: g.StrLeaf()},
-				&gen.Assign{Target: []string{"H.B", "H.In.B", "PB"}[r.Intn(3)], Op: "=", E: g.BoolLeaf()},
+				&gen.Assign{Target: []string{"H.S", "H.In.S", "H.Pn.S", "PStr", "H.Nm"}[r.Intn(5)], Op: "=", E: g.StrLeaf()},
+				&gen.Assign{Target: []string{"H.B", "H.In.B", "PB", "H.Fl"}[r.Intn(4)], Op: "=", E: g.BoolLeaf()},
 				&gen.Assign{Elem: &gen.Elem{Cont: "VSS", KeyInt: ip(int64(r.Intn(3)))}, Op: "=", E: g.StrLeaf()},
 				&gen.Assign{Elem: &gen.Elem{Cont: "H.MI", KeyInt: ip(int64(r.Intn(5) - 2))}, Op: "=", E: g.StrLeaf()},
-				tvS(id+1, &gen.Ref{Name: "H.S"}), tvS(id+2, &gen.Ref{Name: "H.In.S"}), tvS(id+3, &gen.Ref{Name: "H.B"}), tvS(id+4, &gen.Elem{Cont: "VSS", KeyInt: ip(1)}),
+				tvS(id+1, &gen.Ref{Name: "H.S"}), tvS(id+2, &gen.Ref{Name: "H.In.S"}), tvS(id+3, &gen.Ref{Name: "H.B"}), tvS(id+4, &gen.Elem{Cont: "VSS", KeyInt: ip(1)}), tvS(id+5, &gen.Ref{Name: "H.Nm"}), tvS(id+6, &gen.Ref{Name: "H.Fl"}),
 			}
 		}
 		k.Distinct("random", ru.key, ru.desc)
@@ -571,7 +574,7 @@ func smallNum(r interface{ Intn(int) int }, g *gen.G, t reflect.Type) gen.Expr {
 }
 
 func randCall(r interface{ Intn(int) int }, g *gen.G, id int64) *gen.CallE {
-	switch r.Intn(6) {
+	switch r.Intn(7) {
 	case 0:
 		return &gen.CallE{Name: "ti", Args: []gen.Expr{il(id), smallNum(r, g, tI8), smallNum(r, g, tU16), g.NumLeafInt(), smallNum(r, g, tU64)}}
 	case 1:
@@ -583,6 +586,28 @@ func randCall(r interface{ Intn(int) int }, g *gen.G, id int64) *gen.CallE {
 	case 4:
 		// a callee with several results: the call yields the first one
 		return &gen.CallE{Name: "pr2", Args: []gen.Expr{il(id), g.NumLeafInt()}}
+	case 5:
+		// variadic callees with nothing, one thing or several things for the tail
+		switch r.Intn(3) {
+		case 0:
+			args := []gen.Expr{il(id), smallNum(r, g, tI)}
+			for n := r.Intn(3); n > 0; n-- {
+				// the tail gets values of exactly its element type (whether tail elements are converted is not promised)
+				args = append(args, il(int64(r.Intn(1000))))
+			}
+			return &gen.CallE{Name: "tvar", Args: args}
+		case 1:
+			args := []gen.Expr{il(id), smallNum(r, g, tU8)}
+			for n := r.Intn(3); n > 0; n-- {
+				args = append(args, g.StrLeaf())
+			}
+			return &gen.CallE{Name: "tvs", Args: args}
+		}
+		args := []gen.Expr{il(id), smallNum(r, g, tF32)}
+		for n := r.Intn(3); n > 0; n-- {
+			args = append(args, &gen.Lit{V: 2.5, Text: "2.5"})
+		}
+		return &gen.CallE{Name: "tvf", Args: args}
 	default:
 		// nested call and expression arguments
 		return &gen.CallE{Name: "ti", Args: []gen.Expr{il(id), il(3), &gen.Bin{Op: "+", L: il(1), R: il(1)}, &gen.CallE{Name: "idn", Args: []gen.Expr{g.NumLeafInt()}}, il(4)}}
